@@ -48,7 +48,8 @@ def run(tier):
     with lib.Scratch("c10") as sc:
         K = pt.constants(sc)
         pt.CONSTS = K
-        cases = fp.small_cases(t["small"], lib.seed(), K) + fp.split_cases(t["split"], lib.seed(), K)
+        cases = fp.small_cases(t["small"], lib.seed(), K) + fp.split_cases(t["split"], lib.seed(), K) + \
+            fp.unify_cases(t["split"], lib.seed(), K)
         big = fp.big_cases(tier, lib.seed(), K) if t["big"] else []
         rec = []
         for r in lib.pmap(fp.record, big + cases, chunksize=1):
@@ -106,8 +107,13 @@ def replay(doc):
         base = {k: case[k] for k in ("id", "kind", "gen", "fmt", "atoms", "spec", "keep") if k in case}
         if case["kind"] == "split" and "-m" in case["id"]:
             base["id"] = case["id"].rsplit("-m", 1)[0]             # one case of a multi-model splitter run
+        if case.get("gen") == "unify":
+            # one file of a unifier run: the run is repeated with this file's table as the molecule
+            base.update(kind="unify", id=case["id"].rsplit("-f", 1)[0])
         rec = fp.record(base)
-        if isinstance(rec, list):
+        if isinstance(rec, list) and case.get("gen") == "unify":
+            rec = dict(rec[0], id=case["id"])
+        elif isinstance(rec, list):
             rec = [r for r in rec if r["id"] == case["id"]][0]
         res = lib.trace_validate("Trace_FitPdb", "Trace_FitPdb.cfg", [rec], sc, chunks=1)
         rep.add_trace(res, {rec["id"]: rec}, "C10")
